@@ -3,6 +3,8 @@ mod director;
 mod exec;
 mod gen;
 mod hist;
+mod http;
+mod httpx;
 mod model;
 mod props;
 mod runner;
@@ -45,7 +47,7 @@ fn main() {
                 .map(|v| v as u64)
                 .unwrap_or(0);
             let code = match id.as_str() {
-                "C01" | "C05" | "C07" | "C08" | "C09" => {
+                "C01" | "C05" | "C07" | "C08" | "C09" | "C13" => {
                     props::histprops::run(&id, tier, seed, replay.as_deref())
                 }
                 _ => {
